@@ -3,7 +3,7 @@
 From PV Require Proofs.LexerChunk.
 From PV Require Import Base.Prelude Spec.LuaLex Instances.HoldsC02 Instances.HoldsC01
   Generated.T_lexer Model.NameFactory Model.Lexer Model.TokWriters
-  Proofs.LuaLexFacts Proofs.TokWritersProofs Proofs.MinifyRelex Proofs.MinifyRelations Proofs.MinifyEndToEnd Proofs.MinifyCount.
+  Proofs.LuaLexFacts Proofs.TokWritersProofs Proofs.MinifyRelex Proofs.MinifyRelations Proofs.MinifyEndToEnd Proofs.MinifyCount Proofs.MinifyChunks.
 
 (* the first two comments that precede any code ([leading_comments]) are written verbatim, each
    followed by a line break, at the very top of the text ([header_text] is a prefix); under the
@@ -51,6 +51,24 @@ Theorem C19_lines : forall cfg ls out,
 Proof. exact luamin_lines_all. Qed.
 Print Assumptions C19_lines.
 
+(* per-line chunks (R4): C19_lines above is C01_holds_all for chunk lists; here the totality statement and the
+   header statement itself, from the lines the .p8 reader / Lua.from_lines feed to the lexer *)
+Theorem C19_end_to_end_chunks : forall cfg ls ss,
+  Forall LexerChunk.ends_lf (removelast ls) -> Forall byte (concat ls) -> spec_toks (concat ls) = Some ss ->
+  exists out, luamin_text cfg ls = Ok out /\ holds_C01 (concat ls) out = true /\ holds_C19 (concat ls) out = true.
+Proof. exact luamin_lines. Qed.
+Print Assumptions C19_end_to_end_chunks.
+
+Theorem C19_header_chunks : forall cfg ls ss,
+  Forall LexerChunk.ends_lf (removelast ls) -> Forall byte (concat ls) -> spec_toks (concat ls) = Some ss ->
+  exists out ss' rest body, luamin_text cfg ls = Ok out /\ spec_toks out = Some ss'
+    /\ out = header_text (firstn 2 (leading_comments ss)) ++ body
+    /\ after_header (firstn 2 (leading_comments ss)) ss' = Some rest /\ no_comments rest = true
+    /\ titles_ok ss ss' = true
+    /\ length (sig_toks ss') = length (sig_toks ss).
+Proof. exact (fun cfg ls ss H => luamin_chunks_header cfg ls ss (lines_same_as_joined ls H)). Qed.
+Print Assumptions C19_header_chunks.
+
 (* what the title / byline rule of `stats` reads from a text that starts with the header *)
 Theorem C19_titles : forall hc out rest, after_header hc out = Some rest ->
   match hc with
@@ -91,4 +109,18 @@ Example C19_block_same_line :
 a=1"%bs.
 Proof.
   cbv zeta. eexists. eexists. split; [vm_compute; reflexivity|]. split; vm_compute; reflexivity.
+Qed.
+
+(* per-line chunks: the header example fed line by line *)
+Example C19_chunks_example :
+  let ls := [[10]; unBS "  -- title"%bs ++ [10]; unBS "// by me"%bs ++ [10]; [10]; unBS "--[[ third ]] x=1 -- late"%bs ++ [10];
+             unBS "--[[ l2 ]] y=2"%bs] in
+  exists ss, spec_toks (concat ls) = Some ss /\ Forall LexerChunk.ends_lf (removelast ls) /\
+    luamin_text (mk_config false None) ls = Ok (unBS "-- title
+// by me
+a=1
+b=2"%bs).
+Proof.
+  cbv zeta. eexists. split; [vm_compute; reflexivity|]. split; [|vm_compute; reflexivity].
+  apply ends_lf_check. vm_compute. reflexivity.
 Qed.
